@@ -239,6 +239,22 @@ def run(ctx, rep):
             o = b.origin(next(t for bb, t, cal, c in b.calls() if cal == BW + "push_cdp_arr")["args"][1])
             rep.check(any(c[1] and c[1].endswith("Receiver::<T>::recv") for c in origin_calls(o)) or "recv" in show_origin(o), "R8.3", "R8.3|writer_loop_arg", "the pushed batch is the received one", sw_clo)
 
+    # ---------- R8.5 the output file starts empty: a truncating open precedes the append-mode open
+    nw = "fastpasta::write::writer::BufferedWriter::<T>::new"
+    if nw in f.fns:
+        b = cg.body(nw)
+        creates = [bb for bb, t, cal, c in b.calls() if cal == "std::fs::File::create" or cal == "std::fs::File::create_new"]
+        opens = [(bb, t) for bb, t, cal, c in b.calls() if cal == "std::fs::OpenOptions::open"]
+        truncs = [bb for bb, t, cal, c in b.calls() if cal == "std::fs::OpenOptions::truncate" and t["args"][1].get("c", {}).get("int") == 1]
+        appends = [bb for bb, t, cal, c in b.calls() if cal == "std::fs::OpenOptions::append"]
+        ok = bool(creates or opens)
+        for bb, t in opens:
+            ok &= any(b.dominates(cb, bb) for cb in creates) or (any(b.dominates(tb_, bb) for tb_ in truncs) and not appends)
+        rep.check(ok, "R8.5", "R8.5|sink_truncated", "the output file is created/truncated before it is opened for appending (%d create, %d open)" % (len(creates), len(opens)), nw,
+                  "the output file is opened (append) without a preceding truncating create: existing contents would precede the filtered data")
+    else:
+        rep.missing("R8.5", nw)
+
     # ---------- R8.4 only matching packets; payloads present in write mode; writer selection
     CFG = "fastpasta::config::Cfg"
     sp_ = "<%s as %sconfig::filter::FilterOpt>::skip_payload" % (CFG, AP)
